@@ -13,6 +13,7 @@ DECIDING = ["contract:partial_transpose", "O2:involution", "O2:all=transpose", "
 RULE = ("cases = square (dims 1..4, n<=5) and rectangular (dims 2..4, n<=3) operators x every subset S as list/array/int x dtype, "
         "unique-id entries; realignment on square and rectangular bipartite blocks with every dim calling form; a signature is "
         "(monitor, n, |S|, rectangular?) and is non-trivial when the result differs from the input")
+CASE_TIMEOUT = {"quick": 240, "thorough": 3000}
 ASSUMPTIONS = [
     "reference model = swap of tensor axes s <-> n+s on the (row dims + col dims) tensor, exact comparison",
     "rectangular inputs only with every local dimension >= 2 (the property's quantifier)",
@@ -36,6 +37,8 @@ def cases(tier):
         out.append(("realign", r))
     for r in range(40 if tier == "quick" else 800):
         out.append(("cvx", r))
+    if tier == "thorough":
+        out.append(("suite", 0))
     return out
 
 
@@ -170,3 +173,10 @@ def _run_cvx(ctx, spec, rng):
     dev = float(np.abs(np.asarray(got) - want).max()) if ok_shape and got is not None else float("inf")
     ctx.check("O4:cvxpy-value", None, dev=dev, tol=1e-12, sig=(kind, n, len(s)), mech="partial_transpose:cvxpy-value", detail={"kind": kind, "d": d, "s": s})
     ctx.check("O4:cvxpy-affine", bool(expr.is_affine()), sig=(kind,), mech="partial_transpose:cvxpy-not-affine", detail={"kind": kind})
+
+
+def _run_suite(ctx, spec, rng):
+    """Thorough tier: the repository's own tests executed with this property's contracts attached (internal calls observed)."""
+    from ..suiterun import run_suite_under_contract
+
+    run_suite_under_contract(ctx, ['partial_transpose', 'realignment', 'permute_systems', 'swap'], "suite-under-contract")
